@@ -475,6 +475,62 @@ def main(ctx):
     hunits = [(style, rows, col) for style in ("read", "bracket", "scalar") for rows in hsel for col in ("a", "b")]
     ctx.lattice("offsets-beyond-4GiB", hunits, one_huge, bounds=dict(row_bytes=1048576, rows=4200, selections=len(hsel)))
 
+    # header-less TEXT tables whose size in bytes is exactly a block mark (and one row less / more), opened without
+    # nrows= so that the library counts the rows itself: counting or reading in blocks goes wrong at exact multiples
+    def one_textsize(case, rec):
+        from esutil import recfile
+        mark, rowlen, extra, entry = case
+        n = mark // rowlen + extra
+        key = ("tsize", mark, rowlen, extra, rec.tmp)
+        dt = np.dtype([("s", "S%d" % (rowlen - 3)), ("d", "<i2")])
+        if key not in files:
+            tb = np.zeros(n, dtype=dt)
+            w = rowlen - 3
+            idx = np.arange(n)
+            tb["s"] = np.char.zfill((idx % 10 ** min(w, 9)).astype("U"), w).astype("S%d" % w)
+            tb["d"] = idx % 10
+            fnt = os.path.join(rec.tmp, "c02_ts_%d_%d_%d.txt" % (mark, rowlen, extra))
+            recfile.write(fnt, tb, delim=",")
+            if os.path.getsize(fnt) != n * rowlen:
+                return rec.fail(case, "harness: text file has %d bytes, expected %d" % (os.path.getsize(fnt), n * rowlen))
+            files[key] = (fnt, tb)
+        fnt, tb = files[key]
+        try:
+            if entry == "recfile.read(rows=-1)":
+                got = [(-1, recfile.read(fnt, dt, delim=",", rows=-1))]
+                nr = n
+            else:
+                with recfile.Recfile(fnt, mode="r", dtype=dt, delim=",") as R:
+                    nr = R.nrows
+                    if entry == "R[-1]":
+                        got = [(-1, R[-1]), (-n, R[-n]), (n - 1, R[n - 1])]
+                    elif entry == "R[:]":
+                        got = [(slice(None), R[:]), (slice(-2, None), R[-2:]), (slice(n - 2, n + 2), R[n - 2:n + 2])]
+                    else:
+                        got = [(slice(None), R.read())]
+                        for bad in (n, -n - 1):
+                            try:
+                                r = R[bad]
+                            except Exception:
+                                continue
+                            return rec.fail(case, "row %d of a %d-row text table was not rejected but returned %r" % (bad, n, r))
+        except Exception as e:
+            return rec.fail(case, "%s on a text table of %d bytes (%d rows) raised %s: %s" % (entry, n * rowlen, n, type(e).__name__, str(e)[:150]))
+        if nr != n:
+            return rec.fail(case, "row count of a text table of %d bytes is %r, %d rows written" % (n * rowlen, nr, n))
+        for sel, g in got:
+            e = np.atleast_1d(tb[sel])        # a scalar row comes back as a one-row array (checked by the other parts)
+            g = np.atleast_1d(np.asarray(g))
+            if g.shape != np.shape(e) or g.tobytes() != np.asarray(e).astype(g.dtype).tobytes():
+                return rec.fail(case, "%s selection %r of a text table of %d bytes (%d rows): got %r rows ending %r, expected %r ending %r" % (
+                    entry, sel, n * rowlen, n, g.shape, g.reshape(-1)[-1:].tolist(), np.shape(e), np.asarray(e).reshape(-1)[-1:].tolist()))
+        rec.ok(case, outcome="textsize:%s" % entry, nontrivial=(extra == 0))
+
+    tmarks = [(4096, 8), (8192, 8), (65536, 8), (100000, 10), (1000000, 10), (1048576, 8)] + ctx.pick([], [(2000000, 10), (2097152, 8), (4194304, 8), (10000000, 10)])
+    tsunits = [(m, rl, ex, en) for (m, rl) in tmarks for ex in (-1, 0, 1) for en in ("R.read", "R[-1]", "R[:]", "recfile.read(rows=-1)")]
+    ctx.lattice("text-sizes-at-block-marks", tsunits, one_textsize, bounds=dict(marks=[m for m, _ in tmarks], rows_relative_to_mark=[-1, 0, 1],
+                                                                              entry_points=["R.read", "R[-1]", "R[:]", "recfile.read(rows=-1)"]))
+
     # the long-row table: text only, three access styles, every row selection
     LONG_STYLES = ["R.read", "SF[]", "sfile.read"]
     lunits = [("long", 3, delim, style) for delim in ctx.pick([","], [",", " ", "\t"]) for style in LONG_STYLES]
